@@ -294,7 +294,13 @@ def correspondence(ctx, cases, FX):
     """cases: list of (case, res).  -> (number of cases in the model subset, [(case, res, why)] that disagree)"""
     terms, kept = [], []
     rng = ctx.rng("corr-store")
+    cap = ctx.pick(150, 10 ** 9)        # quick tier: bounded number of coqc-evaluated cases, spread over all kinds
+    if len(cases) > cap * 1.4:
+        step = len(cases) / (cap * 1.4)
+        cases = [cases[int(k * step)] for k in range(int(cap * 1.4))]
     for case, res in cases:
+        if len(terms) >= cap:
+            break
         try:
             vals = case["_gen"].store(rng)
             # prefer a store on which the original program is valid
@@ -313,5 +319,5 @@ def correspondence(ctx, cases, FX):
         return 0, []
     b = lambda v: "true" if v else "false"
     fx = "(mkFixes %s %s %s)" % (b(FX["shortcut"]), b(FX["stride"]), b(FX["redstore"]))
-    bad = ctx.coq_eval_failing(HEADER, "ccase", "check " + fx, terms, shard=ctx.pick(60, 200))
+    bad = ctx.coq_eval_failing(HEADER, "ccase", "check " + fx, terms, shard=ctx.pick(50, 200))
     return len(terms), [(kept[i][0], kept[i][1], terms[i][:3000]) for i in bad]
